@@ -55,6 +55,8 @@ class SplineMethod(SamplingMethod):
         ode = stage._ode()
         assert ode.numel_out("alg")==0, "DAE not supported in SplineMethod"
         assert ode.sparsity_in("t").nnz()==0, "Time dependent variables not supported in SplineMethod"
+        if stage.nxq>0:
+            raise Exception("Quadrature states are not supported in SplineMethod (there is no integrator): use ocp.integral(expr) instead.")
         args = ode.convert_in(ode.mx_in())
         res = ode(**args)
 
@@ -565,6 +567,21 @@ ocp.set_der(v, a)
             Jmul = Asignal[:,deps]
             s = self.signals[vars]
             opti.subject_to(self.eval(stage,lb - b <= (Jmul @ s.coeff <= ub-b)))
+
+    def fill_placeholders_integral(self, phase, stage, expr, *args):
+        if phase==1: return
+        # There is no integrator in a spline method (a quadrature state would silently stay zero).
+        # Composite open Newton-Cotes (Milne) rule, two panels per control interval: it only needs values
+        # strictly inside the control intervals, away from the jumps of piecewise constant controls at the grid points
+        refine = 8
+        [ts,exprs] = stage._sample(expr,grid='control',refine=refine)
+        ts = ca.vec(ts)
+        r = 0
+        for k in range(self.N):
+            H = ts[(k+1)*refine]-ts[k*refine]
+            e = exprs[:,k*refine:(k+1)*refine+1]
+            r = r + H/6*(2*e[:,1]-e[:,2]+2*e[:,3]+2*e[:,5]-e[:,6]+2*e[:,7])
+        return r
 
     def set_initial(self, stage, master, initial):
         opti = master.opti if hasattr(master, 'opti') else master
